@@ -204,3 +204,34 @@ def term_matrix(sites, term, autoJW=True):
 def expval(vec, M):
     v = vec.reshape(-1)
     return np.vdot(v, M @ v) / np.vdot(v, v)
+
+
+# ------------------------------------------------------------------------------------------------
+# MPO -> dense matrix (finite), harness contraction of the raw W tensors
+# ------------------------------------------------------------------------------------------------
+def mpo_to_matrix(mpo, left=None, right=None):
+    """Dense matrix of a finite MPO from its W tensors and the IdL/IdR markers (C-order over sites, leg basis)."""
+    L = mpo.L
+    res = None
+    for i in range(L):
+        W = mpo.get_W(i)
+        Wd = np.transpose(W.to_ndarray(), [W.get_leg_index(l) for l in ('wL', 'wR', 'p', 'p*')])
+        if res is None:
+            a = mpo.get_IdL(0) if left is None else left
+            if a is None:
+                raise ValueError('no IdL')
+            res = Wd[a]  # (wR, p, p*)
+            res = np.transpose(res, (1, 2, 0))  # (p, p*, wR)
+        else:
+            # res: (P, P*, w) ; Wd: (w, wR, p, p*)
+            res = np.einsum('abw,wrpq->apbqr', res, Wd)
+            sh = res.shape
+            res = res.reshape(sh[0] * sh[1], sh[2] * sh[3], sh[4])
+    b = mpo.get_IdR(L - 1) if right is None else right
+    if b is None:
+        raise ValueError('no IdR')
+    return res[:, :, b]
+
+
+def is_hermitian(M, tol=1e-10):
+    return np.linalg.norm(M - M.conj().T) <= tol * max(1.0, np.linalg.norm(M))
